@@ -666,6 +666,26 @@ theorem C11_get_triggers_known (h : HSM) (hn : h.ScopesNodup) (p : Path) (hp : P
     (hm : e ∈ getTriggersH h p) : e ∈ h.knownEvents :=
   C11_fires_known h e p [] ((C11_get_triggers_nested h hn p hp e).mp hm)
 
+theorem top_mem_prefixesDesc (x : Name) (tl : Path) : [x] ∈ prefixesDesc (x :: tl) := by
+  unfold prefixesDesc; exact List.mem_append_right _ (List.mem_singleton.mpr rfl)
+
+/-- **C11, nested `to_<state>` works from every state.** When every state's `to_<state>` event is declared in the root
+scope with every top-level state as a source (`autoCoveredB`: what `_init_state` establishes with auto transitions on —
+a decidable check the driver evaluates on the tables introspected from the real machine after every step), then from
+EVERY state `q` of the machine (its top-level ancestor is registered) the event `to_<p>` of every state `p` is offered a
+transition. -/
+theorem C11_to_fires_everywhere (h : HSM) (sep : Nat) (hc : autoCoveredB h sep = true) (p : Path) (hp : p ∈ h.states)
+    (x : Name) (tl : Path) (hx : [x] ∈ h.states) : firesIn h [] (x :: tl) (toEventH sep p) = true := by
+  unfold autoCoveredB at hc
+  have h1 := List.all_eq_true.mp hc p hp
+  have hxt : x ∈ h.topStates := by
+    unfold HSM.topStates
+    exact List.mem_filterMap.mpr ⟨[x], hx, rfl⟩
+  have h2 := List.all_eq_true.mp h1 x hxt
+  unfold firesIn
+  simp only [Bool.or_eq_true, List.any_eq_true]
+  exact Or.inl ⟨[x], top_mem_prefixesDesc x tl, h2⟩
+
 /-- regression (former finding F-C11-nested-get-triggers, DESIGN.md section 6 item 20): states `P`, `P_a`, `P_a_1`
 (character codes 80 / 97 / 49), the event `mid` (109 105 100) declared in the scope of `P` on the
 source `a`: it fires from `P_a_1` and `get_triggers('P_a_1')` lists it -/
